@@ -197,7 +197,7 @@ class Spec:
     def eof(self, f):
         if f in self.raw: return self.foff + len(self.data[f])
         g = self.der[f]; kd = g["kind"]
-        if kd == "P": return max(0, self.eof(g["in"]) - g["shift"])
+        if kd == "P": return self.eof(g["in"]) - g["shift"]
         if kd in ("L", "B"): return self.eof(g["in"])
         if kd == "M": return min(self.eof(g["a"]), self.eof(g["b"]))
         if kd == "X": return min(self.eof(g["in"]), self.eof(g["cnt"]))
@@ -765,7 +765,7 @@ def _model_ok_under(drv, case, res, cfg, eager, upto):
 def attribute(drv, case, res, cfg, eager, upto):
     """smallest set of repair flags under which the model satisfies the specification up to op
     `upto`: single flags first, then all flags with greedy removal"""
-    off = [f for f in FLAGS if not cfg.get(f)]
+    off = [f for f in FLAGS if not cfg.get(f) and f != "fix_phase_sign"]     # that one is C17's
     for fl in off:
         if _model_ok_under(drv, case, res, dict(cfg, **{fl: True}), eager, upto): return [fl]
     allon = dict(cfg, **{f: True for f in off})
